@@ -42,6 +42,8 @@ type Cfg struct {
 	States      []string `json:"states"` // initial registration states ("closed" | "rebuilding" | "dirty")
 	InitOps     []string `json:"init_ops"`
 	WBlocks     []int    `json:"wblocks"` // blocks the Wb event may write
+	ViaREST     bool     `json:"via_rest,omitempty"`    // management events go through controller/client -> controller/rest (api.go)
+	MaxReverts  int      `json:"max_reverts,omitempty"` // volume reverts per path (0 = 1)
 }
 
 func (c *Cfg) has(l []string, s string) bool {
@@ -77,6 +79,11 @@ type be struct {
 	monitoring bool // monitorPing has not yet sent on monitorChan
 	detached   bool // seen absent from the controller after some event
 	ownerB     bool // belongs to the second volume's controller
+}
+
+type goodSnap struct {
+	name string
+	at   int // number of writes issued when it was taken
 }
 
 type frontend struct {
@@ -147,6 +154,9 @@ type cluster struct {
 	nDeletes int
 	nResizes int
 	nTicks   int
+	nReverts int
+	undone   map[int]bool // write id -> undone by a volume revert to a snapshot taken before it
+	goodSnaps []goodSnap  // volume snapshots that were reported successful
 	failFold bool
 	killFold bool // the next coalesce: the sync agent's sfold child dies from a signal
 	agents   map[int]http.Handler // node -> router of jiva's REAL sync agent (used for coalesce requests)
@@ -413,7 +423,7 @@ func newCluster(cfg *Cfg, scratch string) *cluster {
 		cfg.N = cfg.RF + 1
 	}
 	os.Setenv("REPLICATION_FACTOR", fmt.Sprint(cfg.RF))
-	cl := &cluster{cfg: cfg, fe: &frontend{}, cnt: map[string]int{}, acked: map[int]bool{}, issued: map[int]bool{}, attachAt: map[int]int{}, synced: map[int]bool{}, failedBE: map[int]bool{}, adds: map[int]*task{}, pendingCleaner: -1, cleanerTick: map[int]chan time.Time{}, regTruth: map[int]int64{}, lostProbes: map[int]int{}, opFailed: map[int]bool{},
+	cl := &cluster{cfg: cfg, fe: &frontend{}, cnt: map[string]int{}, acked: map[int]bool{}, issued: map[int]bool{}, attachAt: map[int]int{}, synced: map[int]bool{}, failedBE: map[int]bool{}, adds: map[int]*task{}, pendingCleaner: -1, cleanerTick: map[int]chan time.Time{}, regTruth: map[int]int64{}, lostProbes: map[int]int{}, opFailed: map[int]bool{}, undone: map[int]bool{},
 		failIO: map[int]bool{}, failREST: map[string]bool{}, stickyREST: map[string]bool{}}
 	cl.down = make([]bool, cfg.N)
 	for i := 0; i < cfg.N; i++ {
